@@ -181,6 +181,19 @@ func verifOptU64(name string) *uint64 {
 	return nil
 }
 
+// verifOptU64Ext: absent, symbolic in [0, MAXINT], or one of the extremes of the uint64 range.
+func verifOptU64Ext(name string) *uint64 {
+	switch verifChoice(name+"kind", 3) {
+	case 0:
+		return nil
+	case 1:
+		v := verifRangeU64(name, 0, uint64(verifMaxInt()))
+		return &v
+	}
+	v := []uint64{9223372036854775807, 9223372036854775808, 18446744073709551615}[verifChoice(name+"extreme", 3)]
+	return &v
+}
+
 // VerifH_C14_mediaHeader: playlist-level tags.
 func VerifH_C14_mediaHeader() {
 	p := &Media{
@@ -276,7 +289,9 @@ func VerifH_C14_segment() {
 			k1.KeyFormatVersions = "1/2"
 		}
 		s.Key = k1
-		switch verifChoice("key2", 3) {
+		switch verifChoice("key2", 4) {
+		case 3: // key rotation that changes the IV only
+			s2.Key = &MediaKey{Method: k1.Method, URI: k1.URI, IV: "0x2" + verifHexStr("iv2", 1), KeyFormat: k1.KeyFormat, KeyFormatVersions: k1.KeyFormatVersions}
 		case 0:
 			s2.Key = k1
 		case 1:
@@ -302,11 +317,11 @@ func VerifH_C14_parts() {
 		pt.Independent = verifBool("indep")
 		pt.Gap = verifBool("gap")
 		s.Parts = []*MediaPart{pt, base()}
-	case 1: // part byte ranges
+	case 1: // part byte ranges: symbolic below MAXINT, plus the extremes of the uint64 range (concrete)
 		pt := base()
-		pt.ByteRangeLength = verifOptU64("brlen")
+		pt.ByteRangeLength = verifOptU64Ext("brlen")
 		if pt.ByteRangeLength != nil {
-			pt.ByteRangeStart = verifOptU64("brstart")
+			pt.ByteRangeStart = verifOptU64Ext("brstart")
 		}
 		pt.Independent = verifBool("indep")
 		s.Parts = []*MediaPart{pt}
